@@ -1,17 +1,21 @@
 /- Line protocol for the C18 cursor model.
-   in : `<data> <A> <size> <fileLen> ; s <off> <whence> ; t ; r <n> ; i <bs> ; ...`
+   in : `<data> <A> <size> <fileLen> ; s <off> <whence> ; t ; r <n> ; i <bs> ; g <bs> ; n <i> ; ...`
+        (`g <bs>` = make generator number i = count of earlier `g` ops; `n <i>` = `next` on generator i)
    out: one token group per op: `u` | `E` | `p <c>` | `b <start> <count>` | `B <start>,<count> ...`
-        followed by `| <final pos>`; `bad-op` for a malformed line. -/
+        | `m <i>` (generator made) | `k <start> <count>` (block yielded) | `S` (StopIteration)
+        followed by `| <final pos>`; `bad-op` for a malformed line or a `next` on a generator that was never made. -/
 import Earverif.Model.Bw64Cursor
 import Earverif.Driver.Util
 open Earverif.Cursor Earverif.Driver
 
-def parseOp (ws : List String) : Option Op :=
+def parseOp (ws : List String) : Option GOp :=
   match ws with
-  | ["s", a, b] => do some (.seek (← a.toInt?) (← b.toInt?))
-  | ["t"] => some .tell
-  | ["r", a] => do some (.read (← a.toInt?))
-  | ["i", a] => do some (.iter (← a.toInt?))
+  | ["s", a, b] => do some (.op (.seek (← a.toInt?) (← b.toInt?)))
+  | ["t"] => some (.op .tell)
+  | ["r", a] => do some (.op (.read (← a.toInt?)))
+  | ["i", a] => do some (.op (.iter (← a.toInt?)))
+  | ["g", a] => do some (.mk (← a.toInt?))
+  | ["n", a] => do some (.next (← a.toNat?))
   | _ => none
 
 def showOut : Out → String
@@ -21,15 +25,23 @@ def showOut : Out → String
   | .bytes (s, g) => s!"b {s} {g}"
   | .blocks rs => "B" ++ String.join (rs.map fun (s, g) => s!" {s},{g}")
 
+def showGOut : GOut → String
+  | .out o => showOut o
+  | .made i => s!"m {i}"
+  | .block (s, g) => s!"k {s} {g}"
+  | .stop => "S"
+  | .noGen => "bad-op"
+
 def answer (line : String) : String :=
   match line.splitOn ";" with
   | hd :: rest =>
     match parseInts? (words hd), rest.mapM (fun s => parseOp (words s)) with
     | some [d, a, sz, fl], some ops =>
       let k : Cfg := ⟨d, a, sz, fl⟩
-      -- the reader's __init__ ends with seek(0): start from the data offset
-      let (p, outs) := run k k.data ops
-      String.intercalate " ; " (outs.map showOut) ++ s!" | {p}"
+      -- the reader's __init__ ends with seek(0): start from the data offset, no generators yet
+      let (st, outs) := grun k (k.data, []) ops
+      if outs.any (· == .noGen) then "bad-op" else
+      String.intercalate " ; " (outs.map showGOut) ++ s!" | {st.1}"
     | _, _ => "bad-op"
   | [] => "bad-op"
 
